@@ -142,6 +142,29 @@ func checkInputPathsRelative(target *model.Target) (errs []error) {
 		}
 	}
 
+	// Glob patterns are resolved relative to the package directory and silently match nothing when they
+	// point outside of it, so the pattern itself has to be checked: it never shows up in target.Inputs.
+	for _, pattern := range target.UnresolvedInputs {
+		if !strings.ContainsAny(pattern, "*?[{") {
+			// literal inputs are part of target.Inputs and were checked above
+			continue
+		}
+		if path.IsAbs(pattern) {
+			errs = append(errs, fmt.Errorf(
+				"input pattern %s for target %s is not relative",
+				pattern,
+				target.Label))
+			continue
+		}
+		if pathTriesToEscape(pattern) {
+			errs = append(errs, fmt.Errorf(
+				"input pattern %s for target %s points outside the package. Use %s to declare dependencies between targets",
+				pattern,
+				target.Label,
+				color.New(color.Bold).Sprintf("deps")))
+		}
+	}
+
 	return
 }
 
